@@ -542,12 +542,8 @@ func (r *run) checkMagicBlock(v *minersc.VerifVCState, round int64) {
 			r.violation("magic-block-sharder-not-kept", "round %d: sharder %s is in the produced magic block without an accepted keep request", round, r.h.Label(id))
 		}
 	}
-	// the miners of the new block that stay in the DKG list
-	for id := range m.dkg {
-		if !setOf(miners)[id] {
-			delete(m.dkg, id)
-		}
-	}
+	// (the contract keeps the DKG list as it was after the contribute phase: miners that did not make it into the block
+	// still count when it looks for K wait confirmations)
 	r.class(fmt.Sprintf("mb/miners=%d/K=%d/N=%d", nm, mb.K, mb.N))
 	if nm < count(m.shares) {
 		r.class("mb_reduced_to_max_n")
@@ -647,7 +643,8 @@ func (r *run) contributeMpk(senderID, variant string) {
 	ok := r.do(r.call(from, "contributeMpk", input), "contributeMpk")
 	r.class(fmt.Sprintf("mpk/%s/phase=%v/member=%v/first=%v/accepted=%v", variant, inPhase, member, first, ok))
 	foreign := idField != nil && *idField != from.ID
-	if ok != expect && !(ok && foreign) {
+	// (a contribution that names another miner: refused when that miner already has a key, else recorded somewhere - checked below)
+	if ok != expect && !foreign {
 		key := "mpk-"
 		switch {
 		case ok && !inPhase:
@@ -756,17 +753,17 @@ func (r *run) publishShares(senderID, variant string) {
 	} else {
 		from = r.s.Clients[0]
 	}
-	if reproduced(kSharesNullEntries) && variant == "null-entries" || reproduced(kSharesForeignID) && variant == "foreign-id" ||
-		reproduced(kSharesPanic) && variant == "unknown-id" {
+	if reproduced(kSharesNullEntries) && variant == "null-entries" || reproduced(kSharesForeignID) && variant == "foreign-id" {
 		variant = "valid"
 	}
 	member := m.dkg[from.ID]
-	if !member && reproduced(kSharesNonMember) && (variant == "valid" || variant == "valid-minimal") {
+	if !member && reproduced(kSharesNonMember) && strings.HasPrefix(variant, "valid") {
 		variant = "bad-sign"
 	}
 	// the sender's polynomial: the one behind its accepted contribution, or a fresh one
 	p := m.polys[from.ID]
-	if p == nil || m.garbage[from.ID] {
+	ownPoly := p != nil && !m.garbage[from.ID]
+	if !ownPoly {
 		t := m.T
 		if t == 0 {
 			t = 2
@@ -878,8 +875,20 @@ func (r *run) publishShares(senderID, variant string) {
 		for _, id := range others {
 			entries[id] = &sosEntry{Share: p.share(id)}
 		}
+		// revealed shares of the sender's own polynomial, but the input does not say whose they are (the transaction does)
 		idField = nil
-		valid, probeFirst = false, true
+		valid, probeFirst = ownPoly, true
+	}
+	if !member && reproduced(kSharesNonMember) && variant == "valid" && valid {
+		// (a variant that fell back to "valid" above) keep the reproduced class excluded: spoil one entry
+		for id := range entries {
+			entries[id] = signedAck(r.w.Sharders[0], p.share(id))
+			valid = false
+			break
+		}
+		if valid {
+			return
+		}
 	}
 	input := sosInput(idField, entries)
 	if variant == "malformed" {
@@ -894,10 +903,24 @@ func (r *run) publishShares(senderID, variant string) {
 	inPhase, first := m.phase == phPublish, !m.shares[from.ID]
 	sizeOK := nonNull >= need
 	expect := inPhase && member && first && sizeOK && valid
-	if probeFirst && inPhase && first {
-		// the contract runs without a recover: try it on a scratch copy first
+	// a revealed share is checked against the stored public key of the miner the input names; when there is none the
+	// contract dereferences nil. Contract calls run without a recover, so such a call is tried on a scratch copy first.
+	revealed := false
+	for _, e := range entries {
+		if e != nil && e.Sign == "" {
+			revealed = true
+		}
+	}
+	if revealed && variant != "malformed" && (idField == nil || !m.mpk[*idField]) {
+		probeFirst = true
+	}
+	if probeFirst && reproduced(kSharesPanic) {
+		r.class("shares/" + variant + "/not-sent-would-panic")
+		return
+	}
+	if probeFirst {
 		if msg, panicked := r.probe(r.call(from, "shareSignsOrShares", input)); panicked {
-			r.class("shares/unknown-id/panics")
+			r.class("shares/" + variant + "/panics")
 			r.finding(kSharesPanic, "shareSignsOrShares from %s without an id (or with the id of a miner that contributed no public key) and a revealed share panics inside the contract call (%s): the goroutine that executes contracts has no recover, a node that executes this transaction dies", r.h.Label(from.ID), msg)
 			return
 		}
@@ -990,6 +1013,12 @@ func (r *run) wait(senderID string) {
 		from = r.s.Clients[0]
 	}
 	inPhase, first, member := m.phase == phWait, !m.waited[from.ID], m.dkg[from.ID]
+	if reproduced(kMBLosesMembers) && inPhase && first && member && inter(m.waited, m.dkg) >= m.K-1 {
+		// the defect behind kMBLosesMembers shows whenever a view change takes force: once it was reproduced, at most K-1
+		// miners confirm, the contract calls the view change off and the history goes on with the previous set
+		r.class("wait/withheld")
+		return
+	}
 	ok := r.do(r.call(from, "wait", nil), "wait")
 	r.class(fmt.Sprintf("wait/phase=%v/member=%v/first=%v/accepted=%v", inPhase, member, first, ok))
 	switch {
@@ -1053,12 +1082,21 @@ func (r *run) step(diligence int) {
 				return
 			}
 			if todo := r.missing(m.mpk); len(todo) > 0 {
-				r.contributeMpk(r.pick("mpkWho", todo), "valid")
+				// now and then a miner that still has to contribute gets it wrong first
+				how := "valid"
+				if rapid.IntRange(0, 4).Draw(r.t, "mpkSlip") == 0 {
+					how = rapid.SampledFrom(mpkVariants).Draw(r.t, "mpkHow")
+				}
+				r.contributeMpk(r.pick("mpkWho", todo), how)
 				return
 			}
 		case phPublish:
 			if todo := r.missing(m.shares); len(todo) > 0 {
-				r.publishShares(r.pick("sharesWho", todo), rapid.SampledFrom([]string{"valid", "valid", "valid-revealed", "valid-minimal"}).Draw(r.t, "sharesHow"))
+				how := rapid.SampledFrom([]string{"valid", "valid", "valid-revealed", "valid-minimal"}).Draw(r.t, "sharesHow")
+				if rapid.IntRange(0, 3).Draw(r.t, "sharesSlip") == 0 {
+					how = rapid.SampledFrom(shareVariants).Draw(r.t, "sharesHow")
+				}
+				r.publishShares(r.pick("sharesWho", todo), how)
 				return
 			}
 		case phWait:
@@ -1086,13 +1124,23 @@ func (r *run) step(diligence int) {
 	if members := sortedKeys(m.dkg); len(members) > 0 && rapid.IntRange(0, 9).Draw(r.t, "fromMember") < 7 {
 		from = members
 	}
+	// out of its phase a well-formed transaction is the informative one (a malformed one is refused twice over)
+	outOfPhaseValid := rapid.IntRange(0, 9).Draw(r.t, "plain") < 6
 	switch rapid.SampledFrom(kinds).Draw(r.t, "kind") {
 	case "mpk":
-		r.contributeMpk(r.pick("mpkFrom", from), rapid.SampledFrom(mpkVariants).Draw(r.t, "mpkHow"))
+		how := rapid.SampledFrom(mpkVariants).Draw(r.t, "mpkHow")
+		if m.phase != phContribute && outOfPhaseValid {
+			how = "valid"
+		}
+		r.contributeMpk(r.pick("mpkFrom", from), how)
 	case "keep":
 		r.sharderKeep(rapid.IntRange(0, nMBSharders-1).Draw(r.t, "keepWho"), rapid.SampledFrom([]string{"valid", "valid", "valid", "unknown", "malformed"}).Draw(r.t, "keepHow"))
 	case "shares":
-		r.publishShares(r.pick("sharesFrom", from), rapid.SampledFrom(shareVariants).Draw(r.t, "sharesHow"))
+		how := rapid.SampledFrom(shareVariants).Draw(r.t, "sharesHow")
+		if m.phase != phPublish && outOfPhaseValid {
+			how = "valid"
+		}
+		r.publishShares(r.pick("sharesFrom", from), how)
 	case "wait":
 		r.wait(r.pick("waitFrom", from))
 	case "register":
